@@ -93,6 +93,10 @@ func tsApply(ctx context.Context, st workflow.TimeoutStore, d *leandrv.Driver, o
 		}
 		var out []string
 		atoi := func(s string) int { n, _ := strconv.Atoi(s[1:]); return n }
+		// the answer itself is kept as handed out (a caller iterates over it while other queries run: the poller of
+		// another status, another workflow on the same store); the comparison works on a copy
+		tsHeld = append(tsHeld, tsAnswer{raw: ls, snap: append([]workflow.TimeoutRecord(nil), ls...), op: o.String()})
+		ls = append([]workflow.TimeoutRecord(nil), ls...)
 		sort.SliceStable(ls, func(i, j int) bool { return ls[i].ID < ls[j].ID })
 		for _, t := range ls {
 			out = append(out, fmt.Sprintf("%d:%d:%d:%d:%d:%d", t.ID, atoi(t.WorkflowName), atoi(t.ForeignID), atoi(t.RunID), t.Status, int(t.ExpireAt.Sub(tsEpoch)/time.Second)))
@@ -156,9 +160,30 @@ func tsSig(o tsOp, impl string, ops []tsOp) string {
 	return s
 }
 
+// answers handed out earlier in the sequence, with what they said when they were returned
+type tsAnswer struct {
+	raw, snap []workflow.TimeoutRecord
+	op        string
+}
+
+var tsHeld []tsAnswer
+
+// tsHeldChanged: an answer returned earlier no longer says what it said (it shares memory with the store or with a later answer)
+func tsHeldChanged() (string, bool) {
+	for _, h := range tsHeld {
+		for i := range h.snap {
+			if i >= len(h.raw) || h.raw[i] != h.snap[i] {
+				return h.op, true
+			}
+		}
+	}
+	return "", false
+}
+
 func runTsSeq(mk TimeoutStoreFactory, d *leandrv.Driver, ops []tsOp, res *report.Result, prop, suite, label string) error {
 	st, closeFn, inspect := mk()
 	defer closeFn()
+	tsHeld = nil
 	if _, err := d.Ask("ts reset"); err != nil {
 		return err
 	}
@@ -180,6 +205,16 @@ func runTsSeq(mk TimeoutStoreFactory, d *leandrv.Driver, ops []tsOp, res *report
 		res.Count("op:" + o.Kind)
 		if o.Unknown {
 			res.Count("unknown-id")
+		}
+		if op, changed := tsHeldChanged(); changed {
+			var readable []string
+			for _, h := range ops[:i+1] {
+				readable = append(readable, h.String())
+			}
+			res.Violate(report.Violation{Property: prop, Oracle: "answers-are-independent", Signature: "earlier-answer-rewritten",
+				Detail: fmt.Sprintf("%sthe answer of %s, held by its caller, was rewritten in place by %s (operation %d)", label, op, o.String(), i),
+				Replay: map[string]any{"suite": suite, "ops": append([]tsOp{}, ops[:i+1]...), "readable": readable}})
+			return nil
 		}
 		if impl != model && !d.Null {
 			var readable []string
